@@ -68,6 +68,123 @@ Definition agent_add_bind_task (ns : gmap positive node) (t : task) (nid : posit
     end
   end.
 
+(* ---------- cache events between the binds (round 3) ----------
+   pkg/scheduler/cache/event_handlers.go: AddOrUpdateNode 572-595 -> NodeInfo.SetNode / setNode
+   (api/node_info.go 342-424: the ledger is RECOMPUTED from the held tasks), UpdatePod 357-372
+   (deletePod + addPod: a pod that got a deletionTimestamp is re-filed as Releasing), DeletePod
+   428-449, AddPod / addTask 228-251 (a pod naming a node the cache has not seen creates a
+   placeholder NodeInfo without Node object; the node's arrival recomputes its ledger).  The agent
+   scheduler's handlers (agentscheduler/cache/event_handlers.go 50-135, 307-352) do the same to
+   the nodes.  setNode mirrors C08/Model.v node_set (theorem C08_set_node_recomputes_ledger). *)
+
+Inductive cache_ev :=
+| EvNode (nid : positive) (alloc : res)     (* node add / update with this allocatable *)
+| EvTerminating (tid : positive)            (* pod update: deletionTimestamp set *)
+| EvDelete (tid : positive)                 (* pod deleted *)
+| EvPodAdd (t : task).                      (* a pod arrives (possibly before its node) *)
+
+Definition node_set_acc (n : node) (t : task) : node :=
+  let r := t_req t in
+  match t_status t with
+  | Releasing => node_with n (sub (n_idle n) r) (add (n_used n) r) (add (n_releasing n) r) (n_pipelined n) (n_tasks n)
+  | Pipelined => node_with n (n_idle n) (n_used n) (n_releasing n) (add (n_pipelined n) r) (n_tasks n)
+  | _ => node_with n (sub (n_idle n) r) (add (n_used n) r) (n_releasing n) (n_pipelined n) (n_tasks n)
+  end.
+
+Definition node_set (n : node) (alloc : res) : node :=
+  fold_left node_set_acc (map snd (map_to_list (n_tasks n)))
+            (mkNode (n_id n) true alloc empty_res empty_res empty_res alloc (n_tasks n)).
+
+Definition fresh_node (nid : positive) (alloc : res) : node :=
+  mkNode nid true alloc empty_res empty_res empty_res alloc ∅.
+(* NewNodeInfo(nil) *)
+Definition placeholder (nid : positive) : node :=
+  mkNode nid false empty_res empty_res empty_res empty_res empty_res ∅.
+
+Definition terminated (s : status) : bool := match s with Succeeded | Failed => true | _ => false end.
+
+(* addTask's node part *)
+Definition add_to_node (ns : gmap positive node) (t : task) : gmap positive node :=
+  match t_node t with
+  | None => ns
+  | Some i =>
+    let n := default (placeholder i) (ns !! i) in
+    if terminated (t_status t) then <[i := n]> ns
+    else match node_add eps n t with inl (n', _) => <[i := n']> ns | inr _ => <[i := n]> ns end
+  end.
+
+(* deleteTask's node part (keyed by the stored task) *)
+Definition remove_from_node (ns : gmap positive node) (t : task) : gmap positive node :=
+  match t_node t with
+  | None => ns
+  | Some i =>
+    match ns !! i with
+    | Some n => if terminated (t_status t) then ns else <[i := node_remove n (t_id t)]> ns
+    | None => ns
+    end
+  end.
+
+Definition node_event (ns : gmap positive node) (nid : positive) (alloc : res) : gmap positive node :=
+  <[nid := match ns !! nid with Some n => node_set n alloc | None => fresh_node nid alloc end]> ns.
+
+Definition cache_event (c : cache) (e : cache_ev) : cache :=
+  match e with
+  | EvNode nid alloc => mkCache (c_heap c) (c_jobs c) (node_event (c_nodes c) nid alloc)
+  | EvTerminating tid =>
+    match c_heap c !! tid with
+    | None => c
+    | Some st =>
+      let t' := set_status st Releasing in
+      mkCache (<[tid := t']> (c_heap c))
+              (match c_jobs c !! t_job st with
+               | Some j => <[t_job st := job_add (job_del j st) t']> (c_jobs c)
+               | None => c_jobs c end)
+              (add_to_node (remove_from_node (c_nodes c) st) t')
+    end
+  | EvDelete tid =>
+    match c_heap c !! tid with
+    | None => c
+    | Some st =>
+      mkCache (delete tid (c_heap c))
+              (match c_jobs c !! t_job st with
+               | Some j => <[t_job st := job_del j st]> (c_jobs c)
+               | None => c_jobs c end)
+              (remove_from_node (c_nodes c) st)
+    end
+  | EvPodAdd t =>
+    mkCache (<[t_id t := t]> (c_heap c))
+            (match c_jobs c !! t_job t with
+             | Some j => <[t_job t := job_add j t]> (c_jobs c)
+             | None => c_jobs c end)
+            (add_to_node (c_nodes c) t)
+  end.
+
+(* the agent scheduler keeps no job index: the same events on its nodes; [tasks] is what the
+   informer knows of the pod (its TaskInfo is rebuilt from the pod on every event) *)
+Definition agent_event (tasks : positive -> option task) (ns : gmap positive node) (e : cache_ev) : gmap positive node :=
+  match e with
+  | EvNode nid alloc => node_event ns nid alloc
+  | EvTerminating tid =>
+    match tasks tid with
+    | Some st => add_to_node (remove_from_node ns st) (set_status st Releasing)
+    | None => ns end
+  | EvDelete tid => match tasks tid with Some st => remove_from_node ns st | None => ns end
+  | EvPodAdd t => add_to_node ns t
+  end.
+
+Inductive cache_op := OpBind (r : bind_req) | OpEv (e : cache_ev).
+
+Definition cache_step (c : cache) (o : cache_op) : cache * bind_res :=
+  match o with OpBind r => add_bind_task c r | OpEv e => (cache_event c e, BOk) end.
+
+Definition ops_state (c : cache) (l : list cache_op) : cache := fold_left (fun c o => fst (cache_step c o)) l c.
+
+Fixpoint ops_results (c : cache) (l : list cache_op) : list (option bind_res) :=
+  match l with
+  | [] => []
+  | o :: l' => (match o with OpBind _ => Some (snd (cache_step c o)) | OpEv _ => None end) :: ops_results (fst (cache_step c o)) l'
+  end.
+
 Definition bind_state (c : cache) (l : list bind_req) : cache := fold_left (fun c r => fst (add_bind_task c r)) l c.
 
 Fixpoint bind_results (c : cache) (l : list bind_req) : list bind_res :=
